@@ -206,7 +206,8 @@ class Tripwires:
                ("time", ["time", "perf_counter", "monotonic", "time_ns", "process_time"]),
                ("os", ["urandom", "getpid"]),
                ("uuid", ["uuid4", "uuid1"])]
-    NP = ["default_rng", "RandomState", "rand", "randn", "random", "normal", "random_sample", "shuffle", "permutation"]
+    # generators other than the global one (np.random.rand / normal / ... draw from the global generator and are legal)
+    NP = ["default_rng", "RandomState", "Generator", "SeedSequence", "PCG64", "MT19937"]
 
     def __init__(self, clock_jump=False):
         self.hits = []
@@ -444,6 +445,9 @@ def run_c16(sc):
             if sc.get("coord_sensitive"):
                 stats["not-judged(coordinate-sensitive-outside-budget)"] += 1
                 return _result(sc, rounds, dg, seam, None, stats)
+    if not exact and sc.get("depth_guard") is not None and max(a1.max_depth, b1.max_depth) > sc["depth_guard"]:
+        stats["not-judged(cells-near-float-resolution)"] += 1
+        return _result(sc, rounds, dg, seam, None, stats)
     seq = list(zip(oa["points"], ob["points"]))
     if isinstance(oa["final"], list) and isinstance(ob["final"], list):
         seq.append((oa["final"], ob["final"]))
